@@ -426,6 +426,10 @@ def enum_fixed(tier):
                'ops': [['addmatch', 1, 0], ['addmatch', 2, 1], ['burst', [bc], [[0, 0]]], ['removematch', 1, 0],
                        ['burst', [bc], [[0, 0]]], ['addmatch', 1, 0], ['addmatch', 1, 0], ['removematch', 1, 0],
                        ['burst', [bc], [[0, 0]]], ['disconnect', 1], ['burst', [bc], [[0, 0]]]]}
+    # same number of rules before and after: one connection drops its rule, another adds one, between two broadcasts
+    yield {'nclients': 3, 'rules': [{'path': '/a/b'}, {'member': 'Sig'}, {'member': 'Nope'}],
+           'ops': [['addmatch', 1, 0], ['addmatch', 0, 2], ['burst', [bc], [[0, 0]]], ['removematch', 1, 0], ['addmatch', 2, 1],
+                   ['burst', [bc], [[0, 0]]], ['removematch', 2, 0], ['addmatch', 1, 1], ['burst', [bc], [[0, 0]]]]}
     call = {'type': 1, 'path': '/o', 'interface': 'org.verif.A', 'member': 'M', 'sig': '', 'trees': [], 'little': True}
     uc = {'from': 2, 'to': 0, 'dest': 'wk', 'sender': 'forged', 'msg': call, 'little': True, 'no_reply': False, 'no_auto': False}
     for closing in (['disown', 0, 0], ['disconnect', 0]):
